@@ -19,6 +19,7 @@ CONSTANTS
   MaxBuilds = 2
   MaxExt = 0
   MaxCleans = 0
+  Verbose = FALSE
   AllowKeepMeta = FALSE
 INVARIANT NoViolation
 INVARIANT InvView
